@@ -26,8 +26,8 @@ ASSUMPTIONS = [
     "a payload named for single extraction without an output file is removed at the user's request (not 'lost')",
     "missing payload name together with --output-payload-file is outside the input domain (F8-iv)",
 ]
-PL_NAMES = ["#a", "#ab", "#b", "a.bin", "#file", "x", "3", "2024", "007"]
-DEP_NAMES = ["#app.suit", "#rad.suit", "#dep", "#a.suit"]
+PL_NAMES = ["#a", "#ab", "#b", "a.bin", "#file", "x", "3", "2024", "007", "#gr\u00f6\u00dfe.bin", "\u044f\u0434\u0440\u043e", "#a\u00a0b", "\U0001f4e6.bin"]
+DEP_NAMES = ["#app.suit", "#rad.suit", "#dep", "#a.suit", "#\u00e9.suit"]
 
 
 def minimal(seq, payloads, deps):
@@ -139,6 +139,34 @@ def judge_cache(case, acc, ctx):
                 fh.write(data)
         omit, dep, eb = case["omit"], case["dep"], case["eb"]
         expect_reject = None
+        stale_mode = case.get("stale")
+        before = {}
+        if stale_mode == "unrelated":
+            # outputs of an earlier, unrelated run lie at the output paths (both longer than what will be written)
+            with open(out, "wb") as fh:
+                fh.write(sut.STALE_ENVELOPE)
+            with open(cache, "wb") as fh:
+                fh.write(b"\xbf\x61z\x5a\x00\x04\x93\xe0" + bytes(300000) + b"\xff")
+        elif stale_mode == "padded":
+            # the same operation ran before and its outputs were extended afterwards (a padded copy, an image appended to): the files at the
+            # output paths BEGIN with what is going to be written
+            try:
+                from suit_generator import cmd_cache_create as _ccc
+
+                _ccc.main(cache_create_subcommand="from_envelope", eb_size=eb, input_envelope=inp, output_envelope=out, output_file=cache,
+                          omit_payload_regex=omit, dependency_regex=dep)
+            except boot.HarnessError:
+                raise
+            except Exception:
+                pass
+            for f, tail in ((out, b"\x00" * 16), (cache, b"\xff" * 16)):
+                if os.path.exists(f):
+                    with open(f, "ab") as fh:
+                        fh.write(tail)
+        for f in (out, cache):
+            if os.path.exists(f):
+                with open(f, "rb") as fh:
+                    before[f] = fh.read()
         try:
             want_cache, want_tree = model(data, omit, dep)
             names = [k for k, _ in want_cache]
@@ -172,11 +200,12 @@ def judge_cache(case, acc, ctx):
         total = _count_payloads(data)
         nt = not expect_reject and ((moved >= 1 and moved < total) or depth >= 2)
         classes = ["cache", f"route:{route}", f"depth:{depth}", f"omit:{_pclass(omit)}", f"dep:{_pclass(dep)}"] + (["signed"] if case.get("sign") else []) + \
+                  ([f"earlier-outputs:{stale_mode}"] if stale_mode else []) + (["non-ascii-name"] if any(ord(ch) > 127 for _, n in all_names(case["tree"]) for ch in n) else []) + \
                   ([f"reject:{expect_reject.split(' ')[0] if expect_reject.startswith('duplicate') else 'non-envelope-dependency'}"] if expect_reject else
                    ["moved-and-kept"] if 0 < moved < total else ["all-moved"] if moved == total and total else ["none-moved"])
         acc.case(nt_key=(json.dumps(_shape(case["tree"])), omit, dep, eb) if nt else None, classes=classes, sample=case if len(json.dumps(case)) < 1500 else None,
                  sample_key=f"cache/{'rej' if expect_reject else 'ok'}/{depth}/{route}")
-        wrote = [f for f in (out, cache) if os.path.exists(f)]
+        wrote = [f for f in (out, cache) if os.path.exists(f) and (f not in before or open(f, "rb").read() != before[f])]
         if expect_reject:
             if raised is None:
                 raise Violation(f"run that must be refused ({expect_reject}) succeeded", "refusal without output", bucket="accepted:" + expect_reject.split(" ")[0])
@@ -245,15 +274,30 @@ def judge_extract(case, acc, ctx):
                 fh.write(rbytes)
             if paths == "swap-file" and pfile:
                 pfile = rfile  # swap through ONE file: it delivers the new payload and receives the old one
-        if pfile and pfile != rfile and paths != "distinct":
+        if pfile and pfile != rfile and paths not in ("distinct", "padded-earlier-output"):
             with open(pfile, "wb") as fh:
                 fh.write(b"stale payload file, longer than what will be written " * 40)
         if paths == "in-place":
             out = inp
-        elif paths != "distinct":
+        elif paths not in ("distinct", "padded-earlier-output"):
             with open(out, "wb") as fh:
                 fh.write(sut.STALE_ENVELOPE)
         raised = None
+        if paths == "padded-earlier-output":
+            # the same extraction ran before and its outputs were extended afterwards: the files at the output paths BEGIN with what is
+            # going to be written (and an empty payload is the beginning of any file)
+            try:
+                from suit_generator import cmd_payload_extract as _cpe
+
+                _cpe.main(input_envelope=inp, output_envelope=out, payload_name=name, output_payload_file=pfile, payload_replace_path=rfile)
+            except boot.HarnessError:
+                raise
+            except Exception:
+                pass
+            for f in (out, pfile):
+                if f and os.path.exists(f):
+                    with open(f, "ab") as fh:
+                        fh.write(b"\x00" * 9 + b"appended later")
         try:
             from suit_generator import cmd_payload_extract
 
@@ -333,14 +377,14 @@ def case_s(depth):
 
     return tree_s(depth).flatmap(
         lambda t: st.tuples(st.sampled_from(pattern_pool(t, False)), st.sampled_from(pattern_pool(t, True)), st.one_of(st.sampled_from([1, 8, 16, 64, 1024]), st.integers(1, 300)), st.sampled_from([0] + [1] * 7)).map(
-            lambda p: {"tree": t, "omit": p[0], "dep": p[1], "eb": p[2], "sign": p[3] == 0}))
+            lambda p: {"tree": t, "omit": p[0], "dep": p[1], "eb": p[2], "sign": p[3] == 0, "stale": [None, None, "unrelated", "padded"][(p[2] + len(t["members"])) % 4]}))
 
 
 def extract_s():
     from hypothesis import strategies as st
 
     return st.fixed_dictionaries({"tree": tree_s(1), "name": st.sampled_from(PL_NAMES + DEP_NAMES), "pick": st.integers(0, 10), "to_file": st.booleans(),
-                                  "replace": st.sampled_from([None, None, "", "beef", "00" * 50]), "paths": st.sampled_from(["distinct", "distinct", "swap-file", "swap-file", "in-place", "stale-outputs"])})
+                                  "replace": st.sampled_from([None, None, "", "beef", "00" * 50]), "paths": st.sampled_from(["distinct", "distinct", "swap-file", "swap-file", "in-place", "stale-outputs", "padded-earlier-output", "padded-earlier-output"])})
 
 
 def plan(ctx):
@@ -372,7 +416,7 @@ def replay(ctx, check, case):
 
 def finalize(ctx, m, ev):
     c = m["counters"]
-    for n in ["moved-and-kept", "all-moved", "none-moved", "depth:3", "reject:duplicate", "reject:non-envelope-dependency", "route:cli", "signed", "extract", "replace", "to-file", "swap-through-one-file", "paths:in-place", "paths:stale-outputs",
-              "omit:lookahead", "dep:alt"]:
+    for n in ["moved-and-kept", "all-moved", "none-moved", "depth:3", "reject:duplicate", "reject:non-envelope-dependency", "route:cli", "signed", "extract", "replace", "to-file", "swap-through-one-file", "paths:in-place", "paths:stale-outputs", "paths:padded-earlier-output",
+              "earlier-outputs:unrelated", "earlier-outputs:padded", "non-ascii-name", "omit:lookahead", "dep:alt"]:
         if not c.get(n):
             raise boot.HarnessError(f"interesting class {n} is empty")
